@@ -287,6 +287,30 @@ fn check_tape(tape: &[u8], gates: &Gates, stats: &mut Stats, counting: bool) -> 
         let d = docs.last_mut().unwrap();
         *d = Doc { text: text.clone(), lay: Layout { text, pieces: vec![] }, lexemes: vec![] };
     }
+    // now and then the lexemes sit beyond line 65 535, or behind a comment lexeme longer than
+    // 65 535 characters on their line: deltas and lengths are 32-bit quantities
+    if !blank && choice.ratio(1, 24) {
+        let d = docs.last_mut().unwrap();
+        let (prefix, comment_len, lines) = match choice.below(3) {
+            0 => ("\n".repeat(70_000), 0usize, 70_000usize),
+            1 => ("\r\n".repeat(66_000), 0, 66_000),
+            _ => (format!("(*{}*) ", "x".repeat(70_000)), 70_004, 0),
+        };
+        let k = prefix.len();
+        for p in d.lay.pieces.iter_mut() {
+            p.start += k;
+            p.end += k;
+            p.line += lines;
+        }
+        if comment_len > 0 {
+            d.lay.pieces.insert(0, crate::lexeme::Piece { start: 0, end: comment_len, line: 0, col_bytes: 0, col_chars: 0, col_utf16: 0, lexeme: None, trivia: Some(TriviaKind::Comment) });
+        }
+        d.text.insert_str(0, &prefix);
+        d.lay.text = d.text.clone();
+        if counting {
+            stats.class("doc.positions-beyond-65535");
+        }
+    }
     let lexical_error = !blank && choice.ratio(1, 8);
     if lexical_error {
         let d = docs.last_mut().unwrap();
